@@ -1,8 +1,61 @@
-(* C17 - built-in digests equal the standards for every message and every split. *)
+(* C17 - built-in digests equal the standards for every message and every split.
+   Statements only; proofs are in Proofs/Hash*.v.  Vocabulary: X_run chunks = Init, one Update per
+   chunk, Final (Model/HashModel.v); X_spec = the standard's digest (Spec/HashSpec.v); a result
+   HOk d excludes the outcomes HOOB (access outside a buffer), HFuel (loop bound) and HReject. *)
 Require Import LV.Common.Bytes LV.Gen.Gen_hash LV.Spec.HashSpec LV.Model.HashModel LV.Model.HmacModel LV.Proofs.HashProofs.
 Local Open Scope Z_scope.
 
+(* the constants found in the C sources (regenerated on every run) are the standard ones *)
 Theorem hash_constants_are_standard :
   gen_sha1_ok /\ gen_sha256_ok /\ gen_sha512_ok /\ gen_md5_ok /\ gen_hmac_ok.
 Proof. exact Gen_hash_ok. Qed.
 Print Assumptions hash_constants_are_standard.
+
+(* ---------------------------------------- SHA-256 ---------------------------------------- *)
+(* every message, every partition into update calls (empty pieces included) *)
+Theorem sha256_any_split :
+  forall chunks, 8 * zlen (concat chunks) < 2 ^ 64 ->
+    sha256_run chunks = HOk (sha256_spec (concat chunks)).
+Proof. exact sha256_any_split_lemma. Qed.
+Print Assumptions sha256_any_split.
+Example sha256_any_split_hyp : 8 * zlen (concat [[1; 2]; []; [3]]) < 2 ^ 64.
+Proof. reflexivity. Qed.
+
+Theorem sha256_oneshot_is_standard :
+  forall data, 8 * zlen data < 2 ^ 64 -> sha256_oneshot data = HOk (sha256_spec data).
+Proof. exact sha256_oneshot_lemma. Qed.
+Print Assumptions sha256_oneshot_is_standard.
+
+(* two updates behave as one update with the concatenation: both succeed, the resulting contexts
+   agree on everything that is read again, and finishing either gives the standard digest *)
+Theorem sha256_update_app :
+  forall c msg a b, sha256_reached c msg -> 8 * (zlen msg + zlen a + zlen b) < 2 ^ 64 ->
+    exists c2 c12,
+      sha256_feed (sha256_feed (HOk c) a) b = HOk c2 /\ sha256_feed (HOk c) (a ++ b) = HOk c12 /\
+      tom_equiv c2 c12 /\ sha256_done c2 = sha256_done c12 /\
+      sha256_done c12 = HOk (sha256_spec (msg ++ a ++ b)).
+Proof. exact sha256_update_app_lemma. Qed.
+Print Assumptions sha256_update_app.
+Example sha256_update_app_hyp : sha256_reached sha256_init [] /\ 8 * (zlen (@nil Z) + zlen [1] + zlen [2]) < 2 ^ 64.
+Proof. split; [exists []; split; reflexivity|reflexivity]. Qed.
+
+(* ---------------------------------------- SHA-512 ---------------------------------------- *)
+Theorem sha512_any_split :
+  forall chunks, 8 * zlen (concat chunks) < 2 ^ 64 ->
+    sha512_run chunks = HOk (sha512_spec (concat chunks)).
+Proof. exact sha512_any_split_lemma. Qed.
+Print Assumptions sha512_any_split.
+
+Theorem sha512_oneshot_is_standard :
+  forall data, 8 * zlen data < 2 ^ 64 -> sha512_oneshot data = HOk (sha512_spec data).
+Proof. exact sha512_oneshot_lemma. Qed.
+Print Assumptions sha512_oneshot_is_standard.
+
+Theorem sha512_update_app :
+  forall c msg a b, sha512_reached c msg -> 8 * (zlen msg + zlen a + zlen b) < 2 ^ 64 ->
+    exists c2 c12,
+      sha512_feed (sha512_feed (HOk c) a) b = HOk c2 /\ sha512_feed (HOk c) (a ++ b) = HOk c12 /\
+      tom_equiv c2 c12 /\ sha512_done c2 = sha512_done c12 /\
+      sha512_done c12 = HOk (sha512_spec (msg ++ a ++ b)).
+Proof. exact sha512_update_app_lemma. Qed.
+Print Assumptions sha512_update_app.
